@@ -191,6 +191,10 @@ def sym_mesh(info, lengths=None, concrete=None, m0_symbolic=None, tag=""):
             fixed = 0.0
         if fixed is not None:
             # structure, not data: value and its one-point distribution are concrete
+            # (angles as constant proxies: numpy's object loops of radians/sin/cos
+            # need the methods)
+            if n.endswith(("_mtheta", "_mphi")):
+                fixed = Sym(symx.rat(fixed))
             v = fixed
             d = symx.oarray([fixed])
             w = symx.oarray([symx.real("%sw.%s[0]" % (tag, n))])
@@ -202,6 +206,11 @@ def sym_mesh(info, lengths=None, concrete=None, m0_symbolic=None, tag=""):
         mesh.append(entry)
         by[n] = entry
     return mesh, by
+
+
+def is_var(x):
+    """A proxy that is a genuine symbol (not a lifted constant)."""
+    return isinstance(x, Sym) and not (z3.is_rational_value(x.t) or z3.is_int_value(x.t))
 
 
 def const_entry(x):
@@ -299,6 +308,18 @@ def normalise(e):
     return z3.simplify(rw(e), som=True)
 
 
+def unit_failed(u):
+    """Fail fast (same thresholds as Unit.prove): the unit already holds enough
+    replayed, unlisted violations / non-reproducing counterexamples / unknowns;
+    the rest of it would only repeat them."""
+    from .harness import _known_keys
+    cex = u.r["cex"]
+    fresh = sum(1 for c in cex if c.get("reproduced") and c.get("key") not in _known_keys())
+    return (fresh >= getattr(u, "max_cex", 2)
+            or sum(1 for c in cex if not c.get("reproduced")) >= 3
+            or u.r["unknown"] >= getattr(u, "max_unknown", 2))
+
+
 def prove_all(u, items, H, mk_handler, seen=None, sample=False, ring_normal_form=True):
     """Discharge the obligations *items* = [(name, phi, oracle)] of one path.
     One query decides the conjunction; unsat of its negation discharges every
@@ -309,6 +330,9 @@ def prove_all(u, items, H, mk_handler, seen=None, sample=False, ring_normal_form
     still surfaces) or, when the finding has no such constraint, counted
     without being replayed again."""
     seen = seen if seen is not None else {}
+    if unit_failed(u):
+        u.r["skipped_after_violation"] = u.r.get("skipped_after_violation", 0) + len(items)
+        return
     todo = []
     for name, phi, oracle in items:
         if name in seen:
@@ -440,7 +464,7 @@ def robust_inputs(m, H, prefs, by):
                     env[n] = float(symx.model_float(m, consts[n]))
         if not dirty:
             break
-    g = lambda x: env[x.t.decl().name()] if isinstance(x, Sym) else float(x)
+    g = lambda x: env[x.t.decl().name()] if is_var(x) else float(x)
     return {n: [g(v), [g(x) for x in d], [g(x) for x in w]] for n, (v, d, w) in by.items()}
 
 
@@ -466,9 +490,9 @@ def default_prefs(info, by, dispersed=(), salt=0):
         else:
             base = dflt * (1.0 + 0.004 * (k % 11))
         base = _clip_inside(base, lo, hi, dflt)
-        if isinstance(v, Sym):
+        if is_var(v):
             prefs.append((v.t, base))
-        vv = base if isinstance(v, Sym) else float(v)
+        vv = base if is_var(v) else float(v)
         L = len(d)
         for i in range(L):
             if L == 1:
@@ -477,9 +501,9 @@ def default_prefs(info, by, dispersed=(), salt=0):
             else:
                 dv = _clip_inside(vv * (0.9375 + 0.0625 * i) if vv else 0.01 * (i + 1), lo, hi, vv)
                 wv = 0.5 + 0.25 * i
-            if isinstance(d[i], Sym):
+            if is_var(d[i]):
                 prefs.append((d[i].t, dv))
-            if isinstance(w[i], Sym):
+            if is_var(w[i]):
                 prefs.append((w[i].t, wv))
     return prefs
 
@@ -499,8 +523,8 @@ def concretise_mesh(m, by):
     """name -> [value, [dist...], [weights...]] of plain floats from model *m*."""
     out = {}
     for name, (v, d, w) in by.items():
-        fv = symx.model_float(m, v.t) if isinstance(v, Sym) else float(v)
-        fl = lambda x: float(symx.model_float(m, x.t)) if isinstance(x, Sym) else float(x)
+        fv = symx.model_float(m, v.t) if is_var(v) else float(v)
+        fl = lambda x: float(symx.model_float(m, x.t)) if is_var(x) else float(x)
         out[name] = [float(fv), [fl(x) for x in d], [fl(x) for x in w]]
     return out
 
